@@ -44,7 +44,7 @@ BUDGET = {"quick": 300, "thorough": 3000}
 
 OPS = [
     "resize", "reshape", "resample", "downsample", "upsample", "pyramid", "crop", "pad", "center_crop",
-    "center_pad", "narrow", "region_of_interest", "pool", "cube_grid", "down_up", "down_chain",
+    "center_pad", "narrow", "region_of_interest", "pool", "cube_grid", "down_up", "down_chain", "copies",
 ]
 
 _state = {"ctx": None, "post": None}
@@ -56,7 +56,7 @@ def plan(tier, seed):
 
 
 def mandatory(tier):
-    return [f"op/{o}" for o in OPS] + ["chain", "down_chain_levels>=2", "cube_grid/spacing"] + (["pytest"] if tier == "thorough" else [])
+    return [f"op/{o}" for o in OPS] + ["chain", "down_chain_levels>=2", "cube_grid/spacing", "copies/fractional_internal_size"] + (["pytest"] if tier == "thorough" else [])
 
 
 def setup(ctx):
@@ -112,7 +112,7 @@ def rand_op(rng, g, name):
         if kind == 2:
             return (lambda: g.resample(tuple(sp))), dict(op=name, spacing=sp, form="tuple")
         return (lambda: g.resample(*sp)), dict(op=name, spacing=sp, form="args")
-    if name in ("downsample", "upsample", "down_up", "down_chain"):
+    if name in ("downsample", "upsample", "down_up", "down_chain", "copies"):
         internal = g._size.double().numpy()
         max_l = int(np.floor(np.log2(max(internal.min(), 2) / 2))) if internal.min() >= 2 else 0
         if name == "upsample":
@@ -140,6 +140,27 @@ def rand_op(rng, g, name):
                 ctx.true("downsample_chain_then_upsample_returns_original", u == g and list(u.size()) == list(g.size()), levels=total, got=repr(u), want=repr(g))
                 return u
             return fchain, dict(op=name, levels=total)
+        if name == "copies":
+            # a copy taken in the middle of a chain (clone, deepcopy, pickle, other-flag copy) behaves like the grid it
+            # was taken from: the fractional internal size and the flag travel with it, and the source keeps its own
+            def fcopies():
+                import copy as pycopy
+                import pickle
+
+                ctx = _state["ctx"]
+                d = g.downsample(1) if levels >= 1 else g
+                want = d.upsample(1) if levels >= 1 else d.resize(tuple(int(k) + 1 for k in d.size()))
+                for how, c in (("clone", d.clone()), ("deepcopy", pycopy.deepcopy(d)), ("copy", pycopy.copy(d)), ("pickle", pickle.loads(pickle.dumps(d)))):
+                    got = c.upsample(1) if levels >= 1 else c.resize(tuple(int(k) + 1 for k in c.size()))
+                    ctx.true("copy_of_grid_derives_like_its_source", got == want and list(got.size()) == list(want.size()) and got.align_corners() == want.align_corners(), how=how, got=repr(got), want=repr(want))
+                flipped = d.align_corners(not d.align_corners())
+                ctx.true("other_flag_copy_has_the_flag_and_the_lattice", flipped.align_corners() != d.align_corners() and flipped == d and list(flipped.size()) == list(d.size()), got=repr(flipped), want=repr(d))
+                again = d.upsample(1) if levels >= 1 else d.resize(tuple(int(k) + 1 for k in d.size()))
+                ctx.true("source_grid_derives_the_same_after_copies_were_taken", again == want and again.align_corners() == want.align_corners() and d.cube() == (g.downsample(1) if levels >= 1 else g).cube(), got=repr(again), want=repr(want))
+                if bool((d._size != d._size.round()).any()):
+                    ctx.bucket("copies/fractional_internal_size")
+                return again
+            return fcopies, dict(op=name, levels=min(levels, 1))
         if name == "down_up":
             def f():
                 if levels == 0:
